@@ -112,6 +112,11 @@ def chk_ids(case):
                 or d2[1][0].get("raw") != raw.hex():
             out.append((f"C04/aliased/{kind}", "after the caller edited the dict returned by the first tx_deser, parsing the same bytes "
                         f"again gives different ids: {str(d2)[:120]}"))
+    if not out and not tr:
+        from vf.edits import aliasing
+        why = aliasing(lambda: btx.tx_deser(raw, include_raw=True))
+        if why:
+            out.append((f"C04/aliased/{kind}", f"tx_deser of the same bytes after the caller edited the first result: {why}"))
     return out
 
 
